@@ -244,6 +244,7 @@ def read_csv(file_name, sep="\t", index_col=False, nrows=None, usecols=None, chu
     the order of usecols; a missing usecols entry is a ValueError; chunksize=c yields
     consecutive chunks of exactly c rows (the last may be shorter) whose index continues."""
     df = _table(file_name)
+    raw_missing = kw.get("na_filter", True) is False
     if isinstance(usecols, str):
         raise ValueError("'usecols' must either be list-like of all strings, all unicode, all integers or a callable.")
     if usecols is not None:
@@ -253,10 +254,11 @@ def read_csv(file_name, sep="\t", index_col=False, nrows=None, usecols=None, chu
                 raise ValueError("Usecols do not match columns, columns expected but not found: %r" % [c])
         df = df[[c for c in df._c if c in usecols]]
     df = df.copy().reset_index(drop=True)
+    parse = (lambda part: _infer_text_dtypes(_unfiltered_missing(part))) if raw_missing else _infer_text_dtypes
     if nrows is not None:
-        return _infer_text_dtypes(df.iloc[:int(nrows)])
+        return parse(df.iloc[:int(nrows)])
     if chunksize is None:
-        return _infer_text_dtypes(df)
+        return parse(df)
     cs = int(chunksize)
     if cs < 1:
         raise ValueError("'chunksize' must be an integer >=1")
@@ -265,8 +267,44 @@ def read_csv(file_name, sep="\t", index_col=False, nrows=None, usecols=None, chu
         if len(df) == 0:
             yield df.iloc[0:0]  # pandas yields one empty chunk for a header-only file
         for pos in range(0, len(df), cs):
-            yield _infer_text_dtypes(df.iloc[pos:pos + cs])
+            yield parse(df.iloc[pos:pos + cs])
     return gen()
+
+
+class RawText:
+    """A cell that pandas did NOT parse: with na_filter=False an empty field stays the string '' and every value of
+    a column parsed together with it stays text (object dtype). Equal to nothing but itself."""
+    __slots__ = ("cell",)
+
+    def __init__(self, cell):
+        self.cell = cell
+
+    def __symx_eval__(self, m):
+        from . import core
+        v = core.eval_model(m, self.cell)
+        return "" if v is None else str(v)
+
+    def __repr__(self):
+        return "RawText(%r)" % (self.cell,)
+
+
+def _unfiltered_missing(df):
+    """pandas.read_csv(na_filter=False): no missing-value detection. A column with an empty field among the rows
+    parsed together (the whole file, or one chunk) comes back as text; other columns are parsed as usual."""
+    from .sympd import MaybeNA
+    from .core import s_or
+    out = None
+    for c, cells in df._c.items():
+        flags = [x.na for x in cells if isinstance(x, MaybeNA)]
+        if not flags:
+            continue
+        some = s_or(*flags)
+        if some if isinstance(some, bool) else bool(some):     # decided here (the path forks)
+            if out is None:
+                out = df.copy()
+            out._c[c] = [RawText(x) for x in cells]
+            out._dt[c] = symnp.object_
+    return df if out is None else out
 
 
 def _infer_text_dtypes(df):
